@@ -33,7 +33,10 @@ fn eval_tcp_throughput_inv(rtt: f64, target_rate_bps: u32) -> f64 {
     let mut a = 0.0;
     let mut b = 1.0;
 
-    loop {
+    // The target may lie outside the range of the throughput equation (e.g. an RTT estimate of
+    // zero, or a target below the equation's minimum), in which case the interval collapses
+    // without ever coming within tolerance. 64 halvings exhaust the precision of an f64.
+    for _ in 0 .. 64 {
         let c = (b + a)/2.0;
 
         let rate = eval_tcp_throughput(rtt, c);
@@ -56,6 +59,8 @@ fn eval_tcp_throughput_inv(rtt: f64, target_rate_bps: u32) -> f64 {
             return c;
         }
     }
+
+    return (b + a)/2.0;
 }
 
 #[derive(Debug,PartialEq)]
